@@ -50,6 +50,15 @@ M = [
  ('trigger', 'semantic', 'lib/icinga/downtime.cpp', 'if (GetTriggerTime() == 0) {\n\t\tSetTriggerTime(triggerTime);\n\t}', 'SetTriggerTime(triggerTime);', 'trigger time overwritten on every trigger'),
  ('trigger', 'harmless', 'lib/icinga/downtime.cpp', '\t\t\tif (!downtime)\n\t\t\t\tcontinue;\n\n\t\t\tdowntime->TriggerDowntime(triggerTime);', '\t\t\tif (downtime)\n\t\t\t\tdowntime->TriggerDowntime(triggerTime);', 'if instead of continue'),
  ('is_child_of', 'semantic', 'lib/remote/zone.cpp', '\t\tif (azone == zone)\n\t\t\treturn true;', '\t\tif (azone == zone)\n\t\t\treturn azone != this;', 'a zone is no longer a child of itself'),
+ # ---- round 2
+ ('r2_send', 'semantic', 'lib/icinga/checkable-check.cpp', 'if (IsStateOK(old_state) && old_stateType == StateTypeSoft)\n\t\tsend_notification = false;', 'if (IsStateOK(old_state) && old_stateType == StateTypeSoft && !is_volatile)\n\t\tsend_notification = false;', 'volatile checkables notify on SOFT-OK -> HARD-OK'),
+ ('r2_send', 'harmless', 'lib/icinga/checkable-check.cpp', 'bool suppress_notification = !notification_reachable || in_downtime || IsAcknowledged();', 'bool suppress_notification = !(notification_reachable && !in_downtime && !IsAcknowledged());', 'De Morgan'),
+ ('r2_stash', 'semantic', 'lib/icinga/checkable-check.cpp', 'if (!(suppressed_types_before & stateNotifications) && (suppressed_types & stateNotifications)) {', 'if (suppressed_types & stateNotifications) {', 'state_before_suppression overwritten by every suppressed state notification'),
+ ('r2_stash', 'harmless', 'lib/icinga/checkable-check.cpp', 'if ((suppressed_types_after & conflict) == conflict) {', 'if ((suppressed_types_after & NotificationFlappingStart) && (suppressed_types_after & NotificationFlappingEnd)) {', 'two bit tests instead of a mask comparison'),
+ ('r2_stash2', 'semantic', 'lib/icinga/checkable-check.cpp', 'if (suppress_notification || pending) {', 'if (suppress_notification) {', 'pending suppressed state notifications no longer hold back a new one'),
+ ('r2_fire', 'semantic', 'lib/icinga/checkable-notification.cpp', 'if (!NotificationReasonSuppressed(type) && !IsLikelyToBeCheckedSoon() && !wasLastParentRecoveryRecent.Get()) {\n\t\t\t\t\tCheckable::OnNotificationsRequested(this, type, GetLastCheckResult()', 'if (!NotificationReasonSuppressed(type) && !wasLastParentRecoveryRecent.Get()) {\n\t\t\t\t\tCheckable::OnNotificationsRequested(this, type, GetLastCheckResult()', 'flapping notifications no longer wait for an imminent check'),
+ ('r2_fire', 'harmless', 'lib/icinga/checkable-notification.cpp', 'int suppressed_types_after (suppressed_types_before & ~subtract);', 'int suppressed_types_after (suppressed_types_before - (suppressed_types_before & subtract));', 'bit clearing written as a subtraction'),
+ ('r2_fire2', 'semantic', 'lib/icinga/checkable-notification.cpp', 'if (dynamic_cast<Host*>(this))\n\t\t\t\t\tdiffers = Host::CalculateState(cr->GetState()) != Host::CalculateState(GetStateBeforeSuppression());', '', 'hosts compare raw states again (the defect fixed by 5e50b7a)'),
  ('is_child_of', 'unrecognised', 'lib/remote/zone.cpp', '\tZone::Ptr azone = this;\n', '\tZone::Ptr azone = GetParent();\n', 'call outside the binding environment: degrades'),
 ]
 
@@ -96,5 +105,14 @@ sh('git -C %s checkout -q .' % SCR)
 print(regen())
 ok, failed = make()
 print('pristine:', 'compiles' if ok else failed)
-json.dump(rows, open(V + '/notes/XLATE_mutants.json', 'w'), indent=1)
+if FILT:          # a partial run replaces only its own rows
+    try:
+        prev = json.load(open(V + '/notes/XLATE_mutants.json'))
+    except (OSError, ValueError):
+        prev = []
+    done = {(r['id'], r['kind'], r['what']) for r in rows}
+    rows_out = [r for r in prev if (r['id'], r['kind'], r['what']) not in done] + rows
+else:
+    rows_out = rows
+json.dump(rows_out, open(V + '/notes/XLATE_mutants.json', 'w'), indent=1)
 print('%d/%d as expected' % (sum(1 for r in rows if r.get('as_expected')), len(rows)))
